@@ -556,3 +556,191 @@ Definition rrs_blocks (l : list rr) : nat := fold_right (fun r a => rr_blocks r 
 Definition msg_blocks (m : msg) : nat :=
   1 + 2 * length (m_qs m) + rrs_blocks (m_an m) + rrs_blocks (m_ns m) + rrs_blocks (m_ar m).
 Definition decode_regions (m : msg) : list region := map RFresh (seq 0 (msg_blocks m)).
+
+(* ------------------------------------------------------------------ round 4: fault paths and pooled OBJECTS *)
+(* The objects of these protocols are pool byte buffers AND the sync.Pool structs of internal/dnsmsg (Msg, Question):
+   a Question is an object of its own (it is released by ReleaseQuestion, also from inside ReleaseMsg), so "one
+   *Question referenced by two messages" is visible as a second release of the same object.  All objects may be
+   recycled by the environment once released. *)
+
+(* (6) stream reader: dnsutils.ReadMsgFromTCP (net_io.go) and its caller, with the I/O errors decided by the
+   environment.  One thread.  Objects: 0 hdrBuf, 1 msgBuf, 2 m.
+   [dbl = false] the code as it is: both buffers are released by their deferred ReleaseBuf only.
+   [dbl = true]  the variant "release the body buffer early in the read-error branch" (the defer stays). *)
+Definition own4_sread (dbl : bool) : list instr :=
+  [ IAcq 0; IWr 0;                          (* 0,1: hdrBuf := GetBuf(2); io.ReadFull(c, hdrBuf) *)
+    IChoice 17;                             (* 2: the header read fails (EOF between messages, idle time-out) *)
+    IRd 0;                                  (* 3: length := Uint16(hdrBuf) *)
+    IAcq 1; IWr 1;                          (* 4,5: msgBuf := GetBuf(length); io.ReadFull(c, msgBuf): partial data written *)
+    IChoice 15;                             (* 6: the body read fails (short body, reset inside a frame, deadline) *)
+    IRd 1; IAcq 2; IWr 2;                   (* 7..9: UnpackMsg(msgBuf) *)
+    IRel 1; IRel 0;                         (* 10,11: deferred ReleaseBuf(msgBuf), ReleaseBuf(hdrBuf) *)
+    IRd 2; IRel 2; IHalt;                   (* 12..14: the caller uses the message and releases it *)
+    (if dbl then IRel 1 else IGoto 16);     (* 15: error branch: [variant: pool.ReleaseBuf(msgBuf)]; return nil, n, err *)
+    IRel 1;                                 (* 16: deferred ReleaseBuf(msgBuf) *)
+    IRel 0;                                 (* 17: deferred ReleaseBuf(hdrBuf) *)
+    IHalt ].
+Definition Pown4_sread (dbl : bool) : proto :=
+  mkProto [own4_sread dbl] [0;0;0] [true;true;true] [] [].
+
+(* (7) UDP upstream with TCP fallback: upstream.go udpWithFallback.ExchangeContext and its caller (the caller owns
+   and releases the message it is given: contract of transport.Transport).  One thread; both legs are exchanges of
+   their own protocols ((3) and (4)), here they deliver a reply or fail (environment's choice).
+   Objects: 0 r (reply of the UDP leg), 1 tr (reply of the TCP leg).
+   [v = 0] the code as it is: a truncated r is released, the result of the TCP leg (reply or error) is returned;
+   [v = 1] variant: r released, and when the TCP leg fails r is returned ("a truncated answer is better than none");
+   [v = 2] variant: defer ReleaseMsg(r), TCP reply returned on success, fall through to return r on failure. *)
+Definition own4_fallback (v : nat) : list instr :=
+  [ IChoice 20;                             (* 0: the UDP leg fails: return nil, err *)
+    IAcq 0; IWr 0;                          (* 1,2: r, err := u.u.ExchangeContext: the reply is ours now *)
+    IRd 0;                                  (* 3: r.Header.Truncated *)
+    IChoice 17;                             (* 4: not truncated: return r, nil *)
+    (if v =? 2 then IGoto 6 else IRel 0);   (* 5: dnsmsg.ReleaseMsg(r)   [v = 2: deferred] *)
+    IChoice 13;                             (* 6: the TCP leg fails *)
+    IAcq 1; IWr 1;                          (* 7,8: tr := u.t.ExchangeContext *)
+    (if v =? 2 then IRel 0 else IGoto 10);  (* 9: [v = 2: the deferred release runs at the return] *)
+    IRd 1; IRel 1;                          (* 10,11: the caller uses tr and releases it *)
+    IGoto 20;                               (* 12 *)
+    (if v =? 0 then IGoto 20 else IGoto 14);(* 13: TCP leg failed: return nil, err   [variants: keep r] *)
+    (if v =? 2 then IRel 0 else IGoto 15);  (* 14: [v = 2: the deferred release fires on the fall-through as well] *)
+    IGoto 17;                               (* 15: return r, nil *)
+    IHalt;                                  (* 16: unused *)
+    IRd 0; IWr 0;                           (* 17,18: the caller checks id/question of the reply, writes its header *)
+    IRel 0;                                 (* 19: ... and releases it *)
+    IHalt ].
+Definition Pown4_fallback (v : nat) : proto :=
+  mkProto [own4_fallback v] [0;0] [true;true] [] [].
+
+(* (8) hand-over of the REPLY in the reuse exchange (reuse_transport.go exchangeConnCtx, after the D14 fix) against the
+   caller's cancellation.  Threads, objects, channel and flags as in (4): 0 caller, 1 worker, 2 the caller's context;
+   objects 0 payload, 1 payloadCopy, 2 reply; flag 0 worker started, flag 1 ctx done.
+   [rel = false] the code as it is: after resChan <- res{..} the worker only parks the connection; a reply nobody
+   receives stays in the channel (garbage-collected, never recycled).
+   [rel = true]  variant: "if resp != nil && ctxIsDone(ctx) { ReleaseMsg(resp) }" after the hand-over. *)
+Definition own4_reuse_w (rel : bool) : list instr :=
+  [ IWait 0;
+    IRd 1;                                  (* 1: c.c.Write(payloadCopy) *)
+    IChoice 9;                              (* 2: write/read error: no reply message *)
+    IAcq 2; IWr 2;                          (* 3,4: ReadMsgFromTCP *)
+    ISend 0 2;                              (* 5: resChan <- res{m: resp} *)
+    (if rel then IIfEq 1 0 9 else IGoto 9); (* 6: t.releaseConn(c, err); [variant: ctxIsDone(ctx)?] *)
+    IRel 2;                                 (* 7: [variant: dnsmsg.ReleaseMsg(resp)] *)
+    IGoto 9;                                (* 8 *)
+    IRel 1;                                 (* 9: deferred ReleaseBuf(payloadCopy) *)
+    IHalt ].
+(* the caller cancels its own context once it has returned (defer cancel()): thread 2 is that cancellation *)
+Definition Pown4_reuse_reply (rel : bool) : proto :=
+  mkProto [reuse_c_fixed; own4_reuse_w rel; [ISet 1 1; IHalt]] [0;0;0] [true;true;true] [1] [0;0].
+
+(* (9) header-only replies: router.go makeEmptyRespM(m, rcode) inside a server handler (not-implemented queries, the
+   fall-backs of handleServerReq / mustHaveRespB).  One thread.
+   Objects: 0 m (the query Msg), 1 qm = m.Questions[0] (a pooled Question with its name), 2 resp, 3 qr (the reply's own
+   copy of the question), 4 b (the packed reply).
+   [share = false] the code as it is: resp.Questions = append(.., q.Copy()).
+   [share = true]  variant: resp.Questions = append(.., m.Questions[0]): both messages reference qm. *)
+Definition own4_emptyresp (share : bool) : list instr :=
+  let q := if share then 1 else 3 in
+  [ IAcq 0; IAcq 1; IWr 1; IWr 0;           (* 0..3: UnpackMsg: NewMsg, unpackQuestion -> NewQuestion, append *)
+    IRd 0;                                  (* 4: header tests: the query is not implemented *)
+    IAcq 2; IWr 2; IRd 0;                   (* 5..7: resp := NewMsg(); header fields from m *)
+    IRd 1;                                  (* 8: for _, q := range m.Questions *)
+    (if share then IGoto 12 else IAcq 3);   (* 9: q.Copy(): NewQuestion *)
+    IWr 3;                                  (* 10: .. name copy, type, class *)
+    IGoto 12;                               (* 11 *)
+    IWr 2;                                  (* 12: resp.Questions = append(resp.Questions, ..) *)
+    IRd 2; IRd q; IAcq 4; IWr 4;            (* 13..16: mustHaveRespB -> pack resp (reads its question) *)
+    IRd 4; IRel 4;                          (* 17,18: write; ReleaseBuf(b) *)
+    IRel q; IRel 2;                         (* 19,20: releaseRequestContext -> ReleaseMsg(resp): ReleaseQuestion, Put *)
+    IRel 1; IRel 0;                         (* 21,22: ReleaseMsg(m): ReleaseQuestion(m.Questions[0]), Put *)
+    IHalt ].
+Definition Pown4_emptyresp (share : bool) : proto :=
+  mkProto [own4_emptyresp share] [0;0;0;0;0] [true;true;true;true;true] [] [].
+
+(* (10) prefetch: router.go handleReqMsg / handleReq / asyncSingleFlightPrefetch / doPrefetch.  Threads: 0 the request
+   handler (cache hit in the last quarter of the entry's life), 1 the prefetch goroutine (it outlives the handler).
+   Objects: 0 q (the handler's private copy of the question, released by its deferred ReleaseQuestion), 1 qCopy (the
+   goroutine's own copy), 2 resp (the cached response).  Flag 0: goroutine started.
+   [lazy = false] the code as it is: qCopy := q.Copy() BEFORE the go statement; the goroutine owns qCopy.
+   [lazy = true]  variant: the copy is made inside the goroutine ("off the hot path"): q is only lent. *)
+Definition own4_pf_h (lazy : bool) : list instr :=
+  [ IAcq 0; IWr 0;                          (* 0,1: q := m.Questions[0].Copy(); defer ReleaseQuestion(q) *)
+    IRd 0;                                  (* 2: rules, cache lookup: hit, needPrefetch *)
+    IRd 0;                                  (* 3: keyForPrefetch(q, ..); reserve *)
+    (if lazy then IGoto 7 else IAcq 1);     (* 4: qCopy := q.Copy() *)
+    IRd 0; IWr 1;                           (* 5,6 *)
+    (if lazy then ILend 0 1 else IGive 1 1);(* 7: go func(){ .. } *)
+    ISet 0 1;                               (* 8 *)
+    IAcq 2; IWr 2;                          (* 9,10: rc.Response.Msg = resp (unpacked from the cache) *)
+    IRel 0;                                 (* 11: deferred ReleaseQuestion(q) *)
+    IRd 2; IRel 2;                          (* 12,13: pack and write the response; releaseRequestContext *)
+    IHalt ].
+Definition own4_pf_g (lazy : bool) : list instr :=
+  [ IWait 0;
+    (if lazy then IRd 0 else IGoto 4);      (* 1: [variant: qCopy := q.Copy() here] *)
+    (if lazy then IAcq 1 else IGoto 4);     (* 2 *)
+    (if lazy then IWr 1 else IGoto 4);      (* 3 *)
+    IRd 1;                                  (* 4: doPrefetch(qCopy, ..): packReq, forward, cache.Store *)
+    IRel 1;                                 (* 5: dnsmsg.ReleaseQuestion(qCopy) *)
+    IHalt ].
+Definition Pown4_prefetch (lazy : bool) : proto :=
+  mkProto [own4_pf_h lazy; own4_pf_g lazy] [0;0;0] [true;true;true] [] [0].
+
+(* named protocols of round 4 (even = the code as it is, odd/other = the variants) *)
+Definition own4_proto (n : nat) : proto :=
+  match n with
+  | 0 => Pown4_sread false | 1 => Pown4_sread true
+  | 2 => Pown4_fallback 0 | 3 => Pown4_fallback 1 | 4 => Pown4_fallback 2
+  | 5 => Pown4_reuse_reply false | 6 => Pown4_reuse_reply true
+  | 7 => Pown4_emptyresp false | 8 => Pown4_emptyresp true
+  | 9 => Pown4_prefetch false | _ => Pown4_prefetch true
+  end.
+
+Definition own4_t0 (ks : list nat) : list pick := map (T 0) ks.
+
+(* schedules the harness replays.  [var] = the schedule is for a variant (extra steps of the variant / of the environment).
+   sread:    0 frame read completely; 1 header read fails; 2 body read fails; 3 body read fails and another request takes
+             the body buffer as soon as it is released
+   fallback: 0 plain UDP reply; 1 truncated, TCP leg answers; 2 truncated, TCP leg fails; 3 UDP leg fails;
+             4 = 2 with another request taking the released reply
+   reply:    0 reply received, used, released, no cancellation; 1 reply received, THEN the context ends, then the worker's
+             epilogue, then the caller uses and releases the reply; 2 the context ends first (caller gone), late reply
+   empty:    0 the whole handler; 1 the same with another request taking each object as soon as it is released
+   prefetch: 0 the goroutine runs as soon as it is started; 1 the handler returns (and releases its question) first;
+             2 = 1 with another request taking the released question before the goroutine runs *)
+Definition own4_sched (p k : nat) : list pick :=
+  match p, k with
+  | 0, 0 | 1, 0 => own4_t0 (repeat 0 14)
+  | 0, 1 | 1, 1 => own4_t0 [0;0;1;0]
+  | 0, 2 | 1, 2 => own4_t0 [0;0;0;0;0;0;1;0;0;0]
+  | 0, 3 => own4_t0 [0;0;0;0;0;0;1;0;0] ++ [E 1] ++ own4_t0 [0]
+  | 1, 3 => own4_t0 [0;0;0;0;0;0;1;0] ++ [E 1] ++ own4_t0 [0;0]
+  | 2, 0 | 3, 0 | 4, 0 => own4_t0 [0;0;0;0;1;0;0;0]
+  | 2, 1 | 3, 1 | 4, 1 => own4_t0 [0;0;0;0;0;0;0;0;0;0;0;0;0]
+  | 2, 2 => own4_t0 [0;0;0;0;0;0;1;0]
+  | 3, 2 | 4, 2 => own4_t0 [0;0;0;0;0;0;1;0;0;0;0;0;0]
+  | 2, 3 | 3, 3 | 4, 3 => own4_t0 [1]
+  | 2, 4 => own4_t0 [0;0;0;0;0;0] ++ [E 0] ++ own4_t0 [1;0]
+  | 3, 4 => own4_t0 [0;0;0;0;0;0] ++ [E 0] ++ own4_t0 [1;0;0;0;0;0;0]
+  | 4, 4 => own4_t0 [0;0;0;0;0;0;1;0;0] ++ [E 0] ++ own4_t0 [0;0;0;0]
+  | 5, 0 | 6, 0 => rep (T 0 0) 7 ++ rep (T 1 0) 6 ++ rep (T 0 0) 4 ++ rep (T 1 0) 2
+  | 5, 1 => rep (T 0 0) 7 ++ rep (T 1 0) 6 ++ [T 0 0; T 0 0] ++ [T 2 0] ++ rep (T 1 0) 2 ++ [T 0 0; T 0 0]
+  | 6, 1 => rep (T 0 0) 7 ++ rep (T 1 0) 6 ++ [T 0 0; T 0 0] ++ [T 2 0] ++ rep (T 1 0) 4 ++ [T 0 0; T 0 0]
+  | 5, 2 => rep (T 0 0) 7 ++ rep (T 1 0) 2 ++ [T 2 0; T 0 0; T 0 0] ++ rep (T 1 0) 6
+  | 6, 2 => rep (T 0 0) 7 ++ rep (T 1 0) 2 ++ [T 2 0; T 0 0; T 0 0] ++ rep (T 1 0) 8
+  | 7, 0 | 8, 0 => own4_t0 (repeat 0 (if p =? 7 then 23 else 21))
+  | 7, 1 => own4_t0 (repeat 0 19) ++ [E 4] ++ own4_t0 [0] ++ [E 3] ++ own4_t0 [0] ++ [E 2] ++ own4_t0 [0] ++ [E 1] ++ own4_t0 [0]
+  | 8, 1 => own4_t0 (repeat 0 17) ++ [E 4] ++ own4_t0 [0] ++ [E 1] ++ own4_t0 [0] ++ [E 2] ++ own4_t0 [0; 0]
+  | 9, 0 => rep (T 0 0) 9 ++ rep (T 1 0) 4 ++ rep (T 0 0) 5
+  | 10, 0 => rep (T 0 0) 7 ++ rep (T 1 0) 6 ++ rep (T 0 0) 5
+  | 9, 1 => rep (T 0 0) 14 ++ rep (T 1 0) 4
+  | 10, 1 => rep (T 0 0) 12 ++ rep (T 1 0) 6
+  | 9, 2 => rep (T 0 0) 14 ++ [E 0] ++ rep (T 1 0) 4
+  | 10, 2 => rep (T 0 0) 12 ++ [E 0] ++ rep (T 1 0) 6
+  | _, _ => [T 9 0]
+  end.
+
+Definition own4_verdict (p k : nat) : option nat :=
+  match own_run (own4_proto p) (own_init (own4_proto p)) (own4_sched p k) with
+  | Some s => Some (viol s)
+  | None => None
+  end.
